@@ -629,7 +629,9 @@ def _narrows(c):
     try:
         a, b = c[5:].split("->")
         from vlint.terms import INT_TYS
-        return INT_TYS.get(b, 64) < INT_TYS.get(a, 64)
+        if a not in INT_TYS or b not in INT_TYS:
+            return False
+        return INT_TYS[b] < INT_TYS[a]
     except Exception:
         return False
 
